@@ -360,6 +360,9 @@ def install(ex):
     reg("builtins.abs", b_abs)
 
     def b_any(I, it):
+        from .interp import LazyGen
+        if isinstance(it, LazyGen):
+            return I.lazy_quant(it, True)
         for x in I.iterate_concrete(it):
             if I.truthy(x):
                 return True
@@ -367,6 +370,9 @@ def install(ex):
     reg("builtins.any", b_any)
 
     def b_all(I, it):
+        from .interp import LazyGen
+        if isinstance(it, LazyGen):
+            return not I.lazy_quant(it, False)
         for x in I.iterate_concrete(it):
             if not I.truthy(x):
                 return False
